@@ -486,6 +486,7 @@ def stores(func_or_node):
             flat(st.target, st.iter, "iter", st)
         elif isinstance(st, ast.Call) and isinstance(st.func, ast.Name) and st.func.id == "setattr" and len(st.args) == 3:
             out.append((st, st, st.args[2], "setattr"))
+    out.sort(key=lambda x: (getattr(x[0], "lineno", 0), getattr(x[0], "col_offset", 0)))
     return out
 
 
